@@ -129,6 +129,7 @@ Expected == {
   "file/Link/OK",
   "file/Unlink/ok",
   "file/VirtualAllocate/ErrIO",
+  "file/VirtualAllocate/ErrStale",
   "file/VirtualAllocate/OK",
   "file/VirtualApply:AppendOutputPathPersistencyDirectoryNode/ok",
   "file/VirtualApply:GetBazelOutputServiceStat/Internal",
@@ -156,6 +157,7 @@ Expected == {
   "file/VirtualSeek/OK",
   "file/VirtualSetAttributes/ErrIO",
   "file/VirtualSetAttributes/ErrPerm",
+  "file/VirtualSetAttributes/ErrStale",
   "file/VirtualSetAttributes/OK",
   "file/VirtualWrite/ErrIO",
   "file/VirtualWrite/OK",
